@@ -6,10 +6,14 @@ package simapp
 // All orbiter code executed is /repo's; only the wiring of depinject.go:InjectComponents is replicated.
 
 import (
+	"bytes"
 	"context"
+	"encoding/hex"
 	"errors"
 	"fmt"
+	"sort"
 	"strings"
+	"sync"
 
 	warpkeeper "github.com/bcp-innovations/hyperlane-cosmos/x/warp/keeper"
 	warptypes "github.com/bcp-innovations/hyperlane-cosmos/x/warp/types"
@@ -225,71 +229,158 @@ func (e eventMgrDeco) EmitNonConsensus(ctx context.Context, ev protoiface.Messag
 type storeDeco struct {
 	s   corestore.KVStoreService
 	rec *Recorder
+	lay *storeLayout
 }
 
 func (s storeDeco) OpenKVStore(ctx context.Context) corestore.KVStore {
-	return kvDeco{s.s.OpenKVStore(ctx), s.rec}
+	return kvDeco{s.s.OpenKVStore(ctx), s.rec, s.lay}
 }
 
 type kvDeco struct {
 	kv  corestore.KVStore
 	rec *Recorder
+	lay *storeLayout
 }
 
-// collection names by prefix byte (types/core/keys.go)
-func collOf(key []byte) string {
-	if len(key) == 0 {
+// storeLayout: which collection an orbiter-store key belongs to, LEARNED from the running code instead of read from
+// the prefix table in types/core/keys.go (a change of the on-disk layout must not change any verdict):
+//   - params: exactly the keys an UpdateParams by the authority writes;
+//   - paused_protocols / paused_cross_chains / paused_actions: the common prefixes of the keys two different
+//     pause messages of that kind write;
+//   - every other key of the orbiter store is "stats" (the statistics and their indexes are the only other state the
+//     module keeps; a collection added later lands here, which can only make the C03 verdict more lenient).
+type storeLayout struct {
+	params   map[string]bool
+	prefixes []layoutPrefix // longest first
+}
+
+type layoutPrefix struct {
+	p    []byte
+	name string
+}
+
+func (l *storeLayout) classOf(key []byte) string {
+	if l == nil || len(key) == 0 {
 		return "?"
 	}
-	switch key[0] {
-	case 10:
-		return "paused_cross_chains"
-	case 11:
-		return "paused_protocols"
-	case 20:
-		return "paused_actions"
-	case 30, 31, 32:
-		return "stats_amounts"
-	case 33, 34:
-		return "stats_counts"
-	case 40:
+	if l.params[string(key)] {
 		return "params"
 	}
-	return fmt.Sprintf("prefix%d", key[0])
+	for _, lp := range l.prefixes {
+		if bytes.HasPrefix(key, lp.p) {
+			return lp.name
+		}
+	}
+	return "stats"
+}
+
+func (l *storeLayout) String() string {
+	var out []string
+	for k := range l.params {
+		out = append(out, "params="+hex.EncodeToString([]byte(k)))
+	}
+	for _, lp := range l.prefixes {
+		out = append(out, lp.name+"="+hex.EncodeToString(lp.p)+"*")
+	}
+	sort.Strings(out)
+	return strings.Join(out, " ")
+}
+
+var (
+	layoutMu    sync.Mutex
+	layoutCache = map[*World]*storeLayout{}
+)
+
+// learnLayout runs the admin messages on branches of W0 through the application's own Msg router and looks at the
+// orbiter-store keys they change.
+func (w *World) learnLayout() *storeLayout {
+	layoutMu.Lock()
+	defer layoutMu.Unlock()
+	if l, ok := layoutCache[w]; ok {
+		return l
+	}
+	changed := func(op Op) [][]byte {
+		b := Branch(w.Ctx)
+		pre := w.DumpStore(b, core.ModuleName)
+		w.Apply(b, op)
+		post := w.DumpStore(b, core.ModuleName)
+		var keys [][]byte
+		for k, v := range post {
+			if pv, ok := pre[k]; !ok || pv != v {
+				kb, _ := hex.DecodeString(k)
+				keys = append(keys, kb)
+			}
+		}
+		sort.Slice(keys, func(i, j int) bool { return bytes.Compare(keys[i], keys[j]) < 0 })
+		return keys
+	}
+	l := &storeLayout{params: map[string]bool{}}
+	for _, k := range changed(w.OpUpdateParams(7)) {
+		l.params[string(k)] = true
+	}
+	lcp := func(a, b []byte) []byte {
+		n := 0
+		for n < len(a) && n < len(b) && a[n] == b[n] {
+			n++
+		}
+		return a[:n]
+	}
+	learn := func(name string, a, b Op) {
+		ka, kb := changed(a), changed(b)
+		seen := map[string]bool{}
+		for _, x := range ka {
+			var best []byte
+			for _, y := range kb {
+				if c := lcp(x, y); len(c) > len(best) {
+					best = c
+				}
+			}
+			if len(best) > 0 && !seen[string(best)] {
+				seen[string(best)] = true
+				l.prefixes = append(l.prefixes, layoutPrefix{append([]byte{}, best...), name})
+			}
+		}
+	}
+	learn("paused_protocols", w.OpPauseProtocol("PROTOCOL_CCTP"), w.OpPauseProtocol("PROTOCOL_HYPERLANE"))
+	learn("paused_cross_chains", w.OpPauseCC("PROTOCOL_CCTP", "0"), w.OpPauseCC("PROTOCOL_HYPERLANE", "1"))
+	learn("paused_actions", w.OpPauseAction("ACTION_FEE"), w.OpPauseAction("ACTION_SWAP"))
+	sort.SliceStable(l.prefixes, func(i, j int) bool { return len(l.prefixes[i].p) > len(l.prefixes[j].p) })
+	layoutCache[w] = l
+	return l
 }
 
 func (k kvDeco) Get(key []byte) ([]byte, error) {
-	if k.rec.hit("store.Get["+collOf(key)+"]", "", nil, true) {
+	if k.rec.hit("store.Get["+k.lay.classOf(key)+"]", "", nil, true) {
 		return nil, errInjected
 	}
 	return k.kv.Get(key)
 }
 func (k kvDeco) Has(key []byte) (bool, error) {
-	if k.rec.hit("store.Has["+collOf(key)+"]", "", nil, true) {
+	if k.rec.hit("store.Has["+k.lay.classOf(key)+"]", "", nil, true) {
 		return false, errInjected
 	}
 	return k.kv.Has(key)
 }
 func (k kvDeco) Set(key, value []byte) error {
-	if k.rec.hit("store.Set["+collOf(key)+"]", "", nil, true) {
+	if k.rec.hit("store.Set["+k.lay.classOf(key)+"]", "", nil, true) {
 		return errInjected
 	}
 	return k.kv.Set(key, value)
 }
 func (k kvDeco) Delete(key []byte) error {
-	if k.rec.hit("store.Delete["+collOf(key)+"]", "", nil, true) {
+	if k.rec.hit("store.Delete["+k.lay.classOf(key)+"]", "", nil, true) {
 		return errInjected
 	}
 	return k.kv.Delete(key)
 }
 func (k kvDeco) Iterator(start, end []byte) (corestore.Iterator, error) {
-	if k.rec.hit("store.Iterator["+collOf(start)+"]", "", nil, true) {
+	if k.rec.hit("store.Iterator["+k.lay.classOf(start)+"]", "", nil, true) {
 		return nil, errInjected
 	}
 	return k.kv.Iterator(start, end)
 }
 func (k kvDeco) ReverseIterator(start, end []byte) (corestore.Iterator, error) {
-	if k.rec.hit("store.ReverseIterator["+collOf(start)+"]", "", nil, true) {
+	if k.rec.hit("store.ReverseIterator["+k.lay.classOf(start)+"]", "", nil, true) {
 		return nil, errInjected
 	}
 	return k.kv.ReverseIterator(start, end)
@@ -363,7 +454,7 @@ func NewInstr(w *World, withSwap bool) (in *Instr, err error) {
 	bank := bankDeco{app.BankKeeper, rec}
 	evs := eventDeco{runtime.ProvideEventService(), rec}
 	k2 := orbkeeper.NewKeeper(app.appCodec, addresscodec.NewBech32Codec("noble"), silentLogger, evs,
-		storeDeco{runtime.NewKVStoreService(app.GetKey(core.ModuleName)), rec}, w.Authority, bank)
+		storeDeco{runtime.NewKVStoreService(app.GetKey(core.ModuleName)), rec, w.learnLayout()}, w.Authority, bank)
 	in.Keeper = k2
 
 	cctp, err := forwardingctrl.NewCCTPController(k2.Forwarder().Logger(), cctpDeco{cctpkeeper.NewMsgServerImpl(app.CCTPKeeper), rec})
